@@ -411,8 +411,7 @@ fn main() {
         let mut hist = vec![0u64; m * m];
         let mut bad = 0u64;
         for _ in 0..n {
-            let mut deck = Deck::new();
-            let h = u64::from(Hand::from(deck.hole()));
+            let h = match catch(|| { let mut deck = Deck::new(); u64::from(Hand::from(deck.hole())) }) { Some(h) => h, None => { bad += 1; continue; } };
             if h.count_ones() != 2 || h & !full != 0 { bad += 1; continue; }
             let lo = h.trailing_zeros() as usize;
             let hi = 63 - h.leading_zeros() as usize;
